@@ -59,7 +59,7 @@ class C03(Prop):
             n = rng.range(0, 16)
             pattern = [None if rng.chance(1, 3) else i + 1 for i in range(n)]
             yield self._tag(mk_remove_case(rng.choice(["f64", "oi32", "ou8", "on64", "f32", "oi128"]), pattern,
-                                           rng.choice([1, 2, 3, -1, -2, -3]), rng.below(3), rng.below(2)), "rm")
+                                           rng.choice([1, 2, 3, -1, -2, -3]), rng.below(3), rng.below(2), nanvar=rng.below(5)), "rm")
 
     def _tag(self, case, kind):
         case.kind = kind
